@@ -190,6 +190,7 @@ func sliceHasUp(v ssa.Value, pred func(ssa.Value) bool, depth int) bool {
 
 func sliceHas(v ssa.Value, pred func(ssa.Value) bool) bool {
 	seen := map[ssa.Value]bool{}
+	entered := map[*ssa.Function]*ssa.Call{} // helper -> the call through which the walk entered it
 	var walk func(v ssa.Value, d int) bool
 	walk = func(v ssa.Value, d int) bool {
 		if v == nil || seen[v] || d > 30 {
@@ -214,14 +215,27 @@ func sliceHas(v ssa.Value, pred func(ssa.Value) bool) bool {
 			// there, through its parameters, to the arguments) — not through arguments
 			// the helper may ignore
 			if h := x.Call.StaticCallee(); h != nil && h.Blocks != nil && len(privateCallSites(h)) > 0 {
+				// context-sensitive: inside h, its parameters stand for THIS call's arguments
+				key := h
+				if o := h.Origin(); o != nil {
+					key = o
+				}
+				prev, had := entered[key]
+				entered[key] = x
+				hit := false
 				for _, r := range returnsOf(h) {
 					for i := range r.Results {
-						if walk(facts.RetVal(r, i), d+1) {
-							return true
+						if !hit && walk(facts.RetVal(r, i), d+1) {
+							hit = true
 						}
 					}
 				}
-				return false
+				if had {
+					entered[key] = prev
+				} else {
+					delete(entered, key)
+				}
+				return hit
 			}
 			for _, a := range x.Call.Args {
 				if walk(a, d+1) {
@@ -231,6 +245,21 @@ func sliceHas(v ssa.Value, pred func(ssa.Value) bool) bool {
 		case *ssa.Parameter:
 			// a parameter of a private helper: the arguments its callers bind to it
 			if h := x.Parent(); h.Parent() == nil {
+				key := h
+				if o := h.Origin(); o != nil {
+					key = o
+				}
+				if call, ok := entered[key]; ok {
+					for i, q := range h.Params {
+						if q == x && i < len(call.Call.Args) {
+							// the visited set is per value: the same parameter may stand for
+							// another argument in another context
+							delete(seen, v)
+							return walk(call.Call.Args[i], d+1)
+						}
+					}
+					return false
+				}
 				for _, site := range privateCallSites(h) {
 					for i, q := range h.Params {
 						if q == x && i < len(site.Common().Args) && walk(site.Common().Args[i], d+1) {
